@@ -18,6 +18,211 @@ pub mod vf_lemmas {
     {
         assert(s.subrange(0, s.len() as int) =~= s);
     }
+
+    // Bit-vector facts for the shift/mask spellings of division, remainder and multiplication by the powers of two
+    // this code base uses (2, 4, 8, 16, 32, 64 = BLOCK_LEN, 1024 = CHUNK_LEN, 2^32): proved here by (bit_vector) and
+    // broadcast in every module, so that `x >> 6` / `x & 63` verify wherever `x / 64` / `x % 64` did. They only
+    // trigger on terms of exactly these shapes.
+    pub broadcast proof fn vf_bv_u64_shr1(x: u64)
+        ensures #[trigger] (x >> 1) == x / 2,
+    { assert((x >> 1) == x / 2) by (bit_vector); }
+    pub broadcast proof fn vf_bv_u64_and1(x: u64)
+        ensures #[trigger] (x & 1) == x % 2,
+    { assert((x & 1) == x % 2) by (bit_vector); }
+    pub broadcast proof fn vf_bv_u64_shl1(x: u64)
+        requires x <= 9223372036854775807,
+        ensures #[trigger] (x << 1) == x * 2,
+    { assert(x <= 9223372036854775807 ==> (x << 1) == x * 2) by (bit_vector); }
+    pub broadcast proof fn vf_bv_u64_shr2(x: u64)
+        ensures #[trigger] (x >> 2) == x / 4,
+    { assert((x >> 2) == x / 4) by (bit_vector); }
+    pub broadcast proof fn vf_bv_u64_and3(x: u64)
+        ensures #[trigger] (x & 3) == x % 4,
+    { assert((x & 3) == x % 4) by (bit_vector); }
+    pub broadcast proof fn vf_bv_u64_shl2(x: u64)
+        requires x <= 4611686018427387903,
+        ensures #[trigger] (x << 2) == x * 4,
+    { assert(x <= 4611686018427387903 ==> (x << 2) == x * 4) by (bit_vector); }
+    pub broadcast proof fn vf_bv_u64_shr3(x: u64)
+        ensures #[trigger] (x >> 3) == x / 8,
+    { assert((x >> 3) == x / 8) by (bit_vector); }
+    pub broadcast proof fn vf_bv_u64_and7(x: u64)
+        ensures #[trigger] (x & 7) == x % 8,
+    { assert((x & 7) == x % 8) by (bit_vector); }
+    pub broadcast proof fn vf_bv_u64_shl3(x: u64)
+        requires x <= 2305843009213693951,
+        ensures #[trigger] (x << 3) == x * 8,
+    { assert(x <= 2305843009213693951 ==> (x << 3) == x * 8) by (bit_vector); }
+    pub broadcast proof fn vf_bv_u64_shr4(x: u64)
+        ensures #[trigger] (x >> 4) == x / 16,
+    { assert((x >> 4) == x / 16) by (bit_vector); }
+    pub broadcast proof fn vf_bv_u64_and15(x: u64)
+        ensures #[trigger] (x & 15) == x % 16,
+    { assert((x & 15) == x % 16) by (bit_vector); }
+    pub broadcast proof fn vf_bv_u64_shl4(x: u64)
+        requires x <= 1152921504606846975,
+        ensures #[trigger] (x << 4) == x * 16,
+    { assert(x <= 1152921504606846975 ==> (x << 4) == x * 16) by (bit_vector); }
+    pub broadcast proof fn vf_bv_u64_shr5(x: u64)
+        ensures #[trigger] (x >> 5) == x / 32,
+    { assert((x >> 5) == x / 32) by (bit_vector); }
+    pub broadcast proof fn vf_bv_u64_and31(x: u64)
+        ensures #[trigger] (x & 31) == x % 32,
+    { assert((x & 31) == x % 32) by (bit_vector); }
+    pub broadcast proof fn vf_bv_u64_shl5(x: u64)
+        requires x <= 576460752303423487,
+        ensures #[trigger] (x << 5) == x * 32,
+    { assert(x <= 576460752303423487 ==> (x << 5) == x * 32) by (bit_vector); }
+    pub broadcast proof fn vf_bv_u64_shr6(x: u64)
+        ensures #[trigger] (x >> 6) == x / 64,
+    { assert((x >> 6) == x / 64) by (bit_vector); }
+    pub broadcast proof fn vf_bv_u64_and63(x: u64)
+        ensures #[trigger] (x & 63) == x % 64,
+    { assert((x & 63) == x % 64) by (bit_vector); }
+    pub broadcast proof fn vf_bv_u64_shl6(x: u64)
+        requires x <= 288230376151711743,
+        ensures #[trigger] (x << 6) == x * 64,
+    { assert(x <= 288230376151711743 ==> (x << 6) == x * 64) by (bit_vector); }
+    pub broadcast proof fn vf_bv_u64_shr10(x: u64)
+        ensures #[trigger] (x >> 10) == x / 1024,
+    { assert((x >> 10) == x / 1024) by (bit_vector); }
+    pub broadcast proof fn vf_bv_u64_and1023(x: u64)
+        ensures #[trigger] (x & 1023) == x % 1024,
+    { assert((x & 1023) == x % 1024) by (bit_vector); }
+    pub broadcast proof fn vf_bv_u64_shl10(x: u64)
+        requires x <= 18014398509481983,
+        ensures #[trigger] (x << 10) == x * 1024,
+    { assert(x <= 18014398509481983 ==> (x << 10) == x * 1024) by (bit_vector); }
+    pub broadcast proof fn vf_bv_u64_shr32(x: u64)
+        ensures #[trigger] (x >> 32) == x / 4294967296,
+    { assert((x >> 32) == x / 4294967296) by (bit_vector); }
+    pub broadcast proof fn vf_bv_u64_and4294967295(x: u64)
+        ensures #[trigger] (x & 4294967295) == x % 4294967296,
+    { assert((x & 4294967295) == x % 4294967296) by (bit_vector); }
+    pub broadcast proof fn vf_bv_usize_shr1(x: usize)
+        ensures #[trigger] (x >> 1) == x / 2,
+    { assert((x >> 1) == x / 2) by (bit_vector); }
+    pub broadcast proof fn vf_bv_usize_and1(x: usize)
+        ensures #[trigger] (x & 1) == x % 2,
+    { assert((x & 1) == x % 2) by (bit_vector); }
+    pub broadcast proof fn vf_bv_usize_shl1(x: usize)
+        requires x <= 9223372036854775807,
+        ensures #[trigger] (x << 1) == x * 2,
+    { assert(x <= 9223372036854775807 ==> (x << 1) == x * 2) by (bit_vector); }
+    pub broadcast proof fn vf_bv_usize_shr2(x: usize)
+        ensures #[trigger] (x >> 2) == x / 4,
+    { assert((x >> 2) == x / 4) by (bit_vector); }
+    pub broadcast proof fn vf_bv_usize_and3(x: usize)
+        ensures #[trigger] (x & 3) == x % 4,
+    { assert((x & 3) == x % 4) by (bit_vector); }
+    pub broadcast proof fn vf_bv_usize_shl2(x: usize)
+        requires x <= 4611686018427387903,
+        ensures #[trigger] (x << 2) == x * 4,
+    { assert(x <= 4611686018427387903 ==> (x << 2) == x * 4) by (bit_vector); }
+    pub broadcast proof fn vf_bv_usize_shr3(x: usize)
+        ensures #[trigger] (x >> 3) == x / 8,
+    { assert((x >> 3) == x / 8) by (bit_vector); }
+    pub broadcast proof fn vf_bv_usize_and7(x: usize)
+        ensures #[trigger] (x & 7) == x % 8,
+    { assert((x & 7) == x % 8) by (bit_vector); }
+    pub broadcast proof fn vf_bv_usize_shl3(x: usize)
+        requires x <= 2305843009213693951,
+        ensures #[trigger] (x << 3) == x * 8,
+    { assert(x <= 2305843009213693951 ==> (x << 3) == x * 8) by (bit_vector); }
+    pub broadcast proof fn vf_bv_usize_shr4(x: usize)
+        ensures #[trigger] (x >> 4) == x / 16,
+    { assert((x >> 4) == x / 16) by (bit_vector); }
+    pub broadcast proof fn vf_bv_usize_and15(x: usize)
+        ensures #[trigger] (x & 15) == x % 16,
+    { assert((x & 15) == x % 16) by (bit_vector); }
+    pub broadcast proof fn vf_bv_usize_shl4(x: usize)
+        requires x <= 1152921504606846975,
+        ensures #[trigger] (x << 4) == x * 16,
+    { assert(x <= 1152921504606846975 ==> (x << 4) == x * 16) by (bit_vector); }
+    pub broadcast proof fn vf_bv_usize_shr5(x: usize)
+        ensures #[trigger] (x >> 5) == x / 32,
+    { assert((x >> 5) == x / 32) by (bit_vector); }
+    pub broadcast proof fn vf_bv_usize_and31(x: usize)
+        ensures #[trigger] (x & 31) == x % 32,
+    { assert((x & 31) == x % 32) by (bit_vector); }
+    pub broadcast proof fn vf_bv_usize_shl5(x: usize)
+        requires x <= 576460752303423487,
+        ensures #[trigger] (x << 5) == x * 32,
+    { assert(x <= 576460752303423487 ==> (x << 5) == x * 32) by (bit_vector); }
+    pub broadcast proof fn vf_bv_usize_shr6(x: usize)
+        ensures #[trigger] (x >> 6) == x / 64,
+    { assert((x >> 6) == x / 64) by (bit_vector); }
+    pub broadcast proof fn vf_bv_usize_and63(x: usize)
+        ensures #[trigger] (x & 63) == x % 64,
+    { assert((x & 63) == x % 64) by (bit_vector); }
+    pub broadcast proof fn vf_bv_usize_shl6(x: usize)
+        requires x <= 288230376151711743,
+        ensures #[trigger] (x << 6) == x * 64,
+    { assert(x <= 288230376151711743 ==> (x << 6) == x * 64) by (bit_vector); }
+    pub broadcast proof fn vf_bv_usize_shr10(x: usize)
+        ensures #[trigger] (x >> 10) == x / 1024,
+    { assert((x >> 10) == x / 1024) by (bit_vector); }
+    pub broadcast proof fn vf_bv_usize_and1023(x: usize)
+        ensures #[trigger] (x & 1023) == x % 1024,
+    { assert((x & 1023) == x % 1024) by (bit_vector); }
+    pub broadcast proof fn vf_bv_usize_shl10(x: usize)
+        requires x <= 18014398509481983,
+        ensures #[trigger] (x << 10) == x * 1024,
+    { assert(x <= 18014398509481983 ==> (x << 10) == x * 1024) by (bit_vector); }
+    pub broadcast proof fn vf_bv_usize_shr32(x: usize)
+        ensures #[trigger] (x >> 32) == x / 4294967296,
+    { assert((x >> 32) == x / 4294967296) by (bit_vector); }
+    pub broadcast proof fn vf_bv_usize_and4294967295(x: usize)
+        ensures #[trigger] (x & 4294967295) == x % 4294967296,
+    { assert((x & 4294967295) == x % 4294967296) by (bit_vector); }
+    pub broadcast group vf_bv_facts {
+        vf_bv_u64_shr1,
+        vf_bv_u64_and1,
+        vf_bv_u64_shl1,
+        vf_bv_u64_shr2,
+        vf_bv_u64_and3,
+        vf_bv_u64_shl2,
+        vf_bv_u64_shr3,
+        vf_bv_u64_and7,
+        vf_bv_u64_shl3,
+        vf_bv_u64_shr4,
+        vf_bv_u64_and15,
+        vf_bv_u64_shl4,
+        vf_bv_u64_shr5,
+        vf_bv_u64_and31,
+        vf_bv_u64_shl5,
+        vf_bv_u64_shr6,
+        vf_bv_u64_and63,
+        vf_bv_u64_shl6,
+        vf_bv_u64_shr10,
+        vf_bv_u64_and1023,
+        vf_bv_u64_shl10,
+        vf_bv_u64_shr32,
+        vf_bv_u64_and4294967295,
+        vf_bv_usize_shr1,
+        vf_bv_usize_and1,
+        vf_bv_usize_shl1,
+        vf_bv_usize_shr2,
+        vf_bv_usize_and3,
+        vf_bv_usize_shl2,
+        vf_bv_usize_shr3,
+        vf_bv_usize_and7,
+        vf_bv_usize_shl3,
+        vf_bv_usize_shr4,
+        vf_bv_usize_and15,
+        vf_bv_usize_shl4,
+        vf_bv_usize_shr5,
+        vf_bv_usize_and31,
+        vf_bv_usize_shl5,
+        vf_bv_usize_shr6,
+        vf_bv_usize_and63,
+        vf_bv_usize_shl6,
+        vf_bv_usize_shr10,
+        vf_bv_usize_and1023,
+        vf_bv_usize_shl10,
+        vf_bv_usize_shr32,
+        vf_bv_usize_and4294967295,
+    }
 }
 
 // R1: arrayref::array_ref!(A, O, N)  ==  vf_array_ref::<_, {N}>(&(A)[..], O)
